@@ -1,10 +1,10 @@
 (* Correspondence for C11: conversations between the real ociauth transport and a scripted
    fake network (every message that reached the network, every body close, every result)
    versus the model (Model/Auth.v, Model/Challenge.v) and versus the property's specification
-   (Model/AuthSpec.v, clauses P1..P4), plus the challenge parser called directly. *)
+   (Model/AuthSpec.v, clauses P1..P5), plus the challenge parser called directly. *)
 From Coq Require Import String ZArith.
 From OCI Require Export Base.Outcome Obs.AuthObs.
-From OCI Require Import Proofs.Challenge Proofs.AuthC11.
+From OCI Require Import Proofs.Challenge Proofs.AuthC11 Proofs.AuthBody Proofs.AuthParse.
 
 Definition model_agrees (c : case) : bool := AuthObs.model_agrees c.
 
@@ -14,8 +14,11 @@ Definition obs_ok (c : case) : bool :=
   | CRun r =>
       let E := env_of r in
       let h := rev (c_trace r) in
-      all_ok (evP1 E) h && all_ok (evP2 E) h && all_ok (evP3 E) h && all_ok evP4 h && c_untouched r
-  | CParse _ panicked _ => negb panicked
+      all_ok (evP1 E) h && all_ok (evP2 E) h && all_ok (evP3 E) h && all_ok evP4 h && all_ok evP5 h && c_untouched r
+  (* the parser called directly: it does not panic, and it hands out scheme and parameter names
+     in lower case whatever the header's spelling (they are case-insensitive, and the transport
+     looks up realm / service / scope in lower case) *)
+  | CParse _ panicked o => negb panicked && parsed_lower o
   end.
 
 Definition carries_secret (e : event) : bool :=
@@ -41,10 +44,12 @@ Lemma corr_sound c : model_agrees c = true -> obs_ok c = true.
 Proof.
   unfold model_agrees, AuthObs.model_agrees, obs_ok. destruct c as [r|hdr pk o].
   - intros H. apply run_agrees_history in H as [Hh Hu]. cbn zeta. rewrite Hh, Hu.
-    rewrite P1_holds, P2_holds, P3_holds, P4_holds. reflexivity.
-  - unfold parse_agrees. destruct (parse_total hdr) as [res ->]. destruct res as [h|].
-    + intros H. now apply andb_true_iff in H as [H _].
-    + intros H. now apply andb_true_iff in H as [H _].
+    rewrite P1_holds, P2_holds, P3_holds, P4_holds, P5_holds. reflexivity.
+  - unfold parse_agrees. destruct (parse_total hdr) as [res Hres]. rewrite Hres. destruct res as [h|].
+    + intros H. apply andb_true_iff in H as [H1 H2]. rewrite H1. cbn [andb].
+      destruct o as [[sch ps]|]; [|discriminate]. apply andb_true_iff in H2 as [Hs Hp].
+      unfold params_agree in Hp. apply andb_true_iff in Hp as [_ Hp]. eapply agree_parsed_lower; eauto.
+    + intros H. apply andb_true_iff in H as [H1 H2]. rewrite H1. destruct o; [discriminate | reflexivity].
 Qed.
 
 Definition mismatches (cs : list case) : list (N * bool) := mismatches_of model_agrees obs_ok cs.
